@@ -1,6 +1,8 @@
 package main
 
 import (
+	"encoding/json"
+	"path/filepath"
 	"fmt"
 	"go/ast"
 	"go/token"
@@ -32,6 +34,9 @@ type Verifier struct {
 	rangeMS      int
 	funcs2       map[string]*ssa.Function // lifted-form SSA (footprint back ends)
 	sentinelErr  map[string]bool          // "G:pkg.Name" of error variables that are provably never nil
+	prewrap      map[string][]string      // baseline/prewrap_contracts.json: task id -> stable site keys
+	prewrapOut   map[string][]string      // collected by `govc prewrap -update`
+	prewrapMu    sync.Mutex
 	prog2        *ssa.Program
 }
 
@@ -84,6 +89,7 @@ func loadVerifier(root string) (*Verifier, error) {
 	}
 	v.contracts = loadContracts(root, v.modPath)
 	v.sentinelErr = sentinelErrors(prog)
+	v.loadPrewrap("/verif")
 	return v, nil
 }
 
@@ -291,6 +297,24 @@ func (v *Verifier) stabilize(gen func(mustWrap map[string]bool) *Exec) *Exec {
 	if v.maxPasses > 0 {
 		maxPass = v.maxPasses
 	}
+	record := func(x *Exec) {
+		if v.prewrapOut == nil {
+			return
+		}
+		var keys []string
+		for k := range x.preWrap2 {
+			keys = append(keys, k)
+		}
+		for k := range mustWrap {
+			if k2, ok := x.siteKey2[k]; ok {
+				keys = append(keys, k2)
+			}
+		}
+		sortStrings(keys)
+		v.prewrapMu.Lock()
+		v.prewrapOut[x.pkg+":"+x.name+"|"+x.splitLabel] = keys
+		v.prewrapMu.Unlock()
+	}
 	for pass := 0; pass < maxPass; pass++ {
 		x = gen(mustWrap)
 		var ranges []*Obligation
@@ -300,6 +324,7 @@ func (v *Verifier) stabilize(gen func(mustWrap map[string]bool) *Exec) *Exec {
 			}
 		}
 		if len(ranges) == 0 {
+			record(x)
 			return x
 		}
 		solveBatch(ranges, v.vcDir, v.rangeTimeoutMS())
@@ -311,12 +336,39 @@ func (v *Verifier) stabilize(gen func(mustWrap map[string]bool) *Exec) *Exec {
 			}
 		}
 		if n == 0 {
+			record(x)
 			return x
 		}
 	}
 	// did not stabilise: wrap every site
 	x = gen(map[string]bool{"*": true})
 	return x
+}
+
+// loadPrewrap reads the committed list of arithmetic sites that are known, on the pinned tree, not
+// to admit a no-overflow proof.  Using it only skips the attempt: wrap-around is the exact Go
+// semantics, so pre-wrapping a site can never make a proof unsound.
+func (v *Verifier) loadPrewrap(verifDir string) {
+	b, err := os.ReadFile(filepath.Join(verifDir, "baseline", "prewrap_contracts.json"))
+	if err != nil {
+		return
+	}
+	m := map[string][]string{}
+	if json.Unmarshal(b, &m) == nil {
+		v.prewrap = m
+	}
+}
+
+func (v *Verifier) prewrapFor(x *Exec) {
+	if v.prewrap == nil || v.prewrapOut != nil {
+		return
+	}
+	if ks, ok := v.prewrap[x.pkg+":"+x.name+"|"+x.splitLabel]; ok {
+		x.preWrap2 = map[string]bool{}
+		for _, k := range ks {
+			x.preWrap2[k] = true
+		}
+	}
 }
 
 // stabilizeNames is stabilize that also reports the names of the range obligations that had to be
@@ -390,6 +442,7 @@ func (v *Verifier) genFunc(fc *FuncContract, fn *ssa.Function, combo []int64, mu
 		labels = append(labels, fmt.Sprintf("%s=%d", sp.Var, combo[i]))
 	}
 	x.splitLabel = strings.Join(labels, ",")
+	v.prewrapFor(x)
 	st, params := x.initialState(fn, "")
 	fr := &Frame{fn: fn, fc: fc, vals: map[ssa.Value]Val{}, params: params, top: true, propTags: fc.Props, edgePC: map[[2]*ssa.BasicBlock]string{}}
 	for i, p := range fn.Params {
@@ -582,6 +635,7 @@ func (v *Verifier) genPair(p *Pair, combo []int64, mustWrap map[string]bool) *Ex
 		labels = append(labels, fmt.Sprintf("%s=%d", sp.Var, combo[i]))
 	}
 	x.splitLabel = strings.Join(labels, ",")
+	v.prewrapFor(x)
 	lp, lk := splitPkgKey(p.Pkg, p.Left, v.modPath)
 	rp, rk := splitPkgKey(p.Pkg, p.Right, v.modPath)
 	ls, err := x.initSide(v, lp, lk, "l_", true)
